@@ -5,6 +5,10 @@ import operator_common as O
 
 def run(res, tier, seed):
     res.trusted_base += [
+        'translator T3 (translate/t3_stencil.py): regenerates coq/gen/StencilGen.v from the bodies of NODE_APPLY_RESIDUAL_TAKE and '
+        'NODE_APPLY_A_GIVE on every run (branch conditions, local declarations, every write with target node, kind and value '
+        'expression); StencilTie.v proves the generated kernels equal to the model the other theorems are about; the translator '
+        'itself is validated by the K-matrix correspondence (the same model against the compiled kernels)',
         'hand-written model coq/theories/StencilDefs.v (A_take_row from NODE_APPLY_RESIDUAL_TAKE, A_give from NODE_APPLY_A_GIVE) '
         'tied by K-matrix: harness/h_operator.cpp extracts the full matrices of ResidualGive (1 thread and 3 threads) and '
         'ResidualTake on random grids x {circular, shafranov, czarny, synthetic non-orthogonal} x 7 profiles x boundary mode x '
@@ -16,6 +20,10 @@ def run(res, tier, seed):
         'cached = uncached and coarse cache = fresh evaluation are checked on the implementation (bitwise), not proved: they are '
         'statements about LevelCache plumbing; the coefficient values enter the model as data',
     ]
+    for n, ok, msg in C.run_translators(['t3_stencil']):
+        res.obligation('translator:' + n, ok, msg[-300:])
+        if not ok:
+            res.fail('translator:' + n, msg)
     cr = C.coq_build('C03')
     res.add_coq(cr)
     out = O.run(res, tier, seed, 'residual', ('give1', 'giveN', 'take'))
